@@ -56,6 +56,15 @@ theorem chunking_independent_deflate_pair {C : Compressor} {IsStream : Bytes →
   obtain ⟨z₂, h3, h4⟩ := chunking_independent_deflate K fuelW fuelF hW hF chunks₂
   exact ⟨z₁, z₂, h1, h3, h2, by rw [h]; exact h4⟩
 
+/-- The inner writer of `deflate::Write` may accept only part of each batch: `write_inner` hands every batch
+of compressed bytes to `inner.write_all`, and `write_all` into ANY writer that takes at most `maxWrite`
+bytes per call (any `maxWrite`; 0 = no limit) delivers exactly the batch — so what the inner writer
+ends up holding does not depend on its acceptance pattern (the model's `Writer.inner`, an append, is
+the common result). -/
+theorem inner_write_all_independent (maxWrite : Nat) (s : List Bytes) (buf : Bytes) :
+    ∃ s', writeAll (sinkWrite maxWrite) s buf = .ok s' ∧ sinkContent s' = sinkContent s ++ buf :=
+  sink_writeAllWith maxWrite (buf.length + 1) s buf (by omega)
+
 /-- `inflate::read` over a complete stream, delivered by the `BufRead` in ANY non-empty chunks,
 returns the first `dst.len()` bytes of the content — all of it when `dst` is at least as long. -/
 theorem inflate_read_chunking_independent {D : Decompressor} {IsStream : Bytes → Bytes → Prop}
